@@ -58,6 +58,16 @@ func rmCallCred(conn net.Conn, xid, prog, vers, proc uint32, args []byte, splits
 
 // conformantClient: NULL, MNT "/", GETATTR as single-fragment records, then MNT and GETATTR again as multi-fragment records, then NULL and GETATTR with a full-size AUTH_SYS credential (16 groups); returns "rm" when all three are answered as record-marked replies.
 func conformantClient(port int) string {
+	for i := 0; i < 9; i++ { // earlier clients: connect, one NULL call (answered or not), disconnect
+		if c, err := net.DialTimeout("tcp", fmt.Sprintf("127.0.0.1:%d", port), 2*time.Second); err == nil {
+			c.SetDeadline(time.Now().Add(300 * time.Millisecond))
+			c.Write(frame(cat(encCallHdr(uint32(900+i), 2, progNFS, 3, 0, 1, encAuthSys(0, []byte("c"), 0, 0, nil), 0, nil)), nil))
+			var b [28]byte
+			io.ReadFull(c, b[:])
+			c.Close()
+		}
+	}
+	time.Sleep(20 * time.Millisecond)
 	conn, err := net.DialTimeout("tcp", fmt.Sprintf("127.0.0.1:%d", port), 2*time.Second)
 	if err != nil {
 		return "no-connect:" + err.Error()
@@ -132,7 +142,9 @@ func runStartupOps(ops []string) []string {
 			port = freePort()
 		}
 		fs := NewRefFS()
-		n, err := absnfs.New(fs, absnfs.ExportOptions{})
+		// a small connection limit, and more clients than that coming and going before the probe: a server that has
+		// served and lost some clients must still serve the next one
+		n, err := absnfs.New(fs, absnfs.ExportOptions{MaxConnections: 4})
 		must(err)
 		switch f[1] {
 		case "export":
